@@ -1,3 +1,5 @@
+import FrappyProofs.Lemmas.Control
 import FrappyProofs.Lemmas.Logging
 import FrappyProofs.Lemmas.Rotate
+import FrappyProofs.Props.C18
 import FrappyProofs.Props.C20
